@@ -1,6 +1,10 @@
 # Table consumed by gen_manifest.py (exec'd).  One chk(...) per claimed property.
-HOOK_COMMITS = []
+HOOK_COMMITS = ["274ee918"]
 
 chk("C09", "algebraic-law monitor on the real issuance functions (additivity, totals) over an exhaustive boundary grid + seeded random triples",
     "Runs the real CalcUnbindOng/CalcGovernanceUnbindOng on every triple of a ~70-point boundary grid per network id (interval edges, both deadlines ±2, 0, 2^32-1) and on seeded random triples, asserting F(s,e)=F(s,m)+F(m,e), F(s,s)=0, and holder+governance totals = ONG supply, also through random piecewise settlements. Exploration: the grid is exhaustive over the listed boundaries, the rest is sampled.",
     "32-bit offsets; balance factor in {1,7,total}; network ids main/polaris/solo/one unknown id")
+
+chk("C01", "crash-point fault injection (verif hook) + on-disk snapshot / real SIGKILL, recovery through the production InitLedger path, differential against an uncrashed reference run",
+    "Every one of the 6 crash points of submitBlock is enumerated at every block of seeded chains (both commit paths, mixed tx kinds incl. EVM); each yields the directory a process death would leave, which is reopened with the real recovery code and compared (full state-DB dump, all state merkle roots, block merkle root, event notifies, merkle proofs) with the uncrashed reference at the recovered height, then fed the next reference blocks, then reopened again. Recoveries that replay a block are themselves crashed at 3 recovery points; the eagerly appended merkle hash file is torn at every 32-byte boundary and mid-hash; a child process is SIGKILLed for real at sampled firings.",
+    "process death only (page cache survives), LevelDB's own write atomicity trusted; chains of 12 (quick) / 36x5 (thorough) blocks", category="fault_enumeration")
